@@ -350,6 +350,29 @@ FSTRING_BAD = [("f'{'", "UnclosedLbrace"), ("f'{x'", "UnclosedLbrace"), ("f'}'",
                ("f'{a b}'", "InvalidExpression"), ("f'{a +}'", "InvalidExpression"), ("f'{\\n}'", ""), ("f'{x\\\\}'", ""), ("f'{#}'", ""), ("f'{x #c}'", ""), ("f'{(}'", ""), ("f'{)}'", ""),
                ("f'{[}'", ""), ("f'{(]}'", "MismatchedDelimiter"), ("f'{x:{'", ""), ("f'{x:}}'", "SingleRbrace"), ("f'{=}'", "EmptyExpression"), ("f'{x=!z}'", "InvalidConversionFlag"), ("f'{lambda x: 1}'", ""),
                ("f'{x!r !s}'", ""), ("f'{{}'", "SingleRbrace"), ("f'{x}}'", "SingleRbrace"), ("f'{'a'}'", ""), ("rf'{'", "UnclosedLbrace"), ("f'''{'''", "UnclosedLbrace"), ("f'{x' 'y}'", "")]
+def _empty_field_forms():
+    """Replacement fields holding nothing but white space of every kind (blank, tab, form feed, line breaks in
+    triple-quoted literals), bare and followed by a conversion, a spec, `=`; in every f-string prefix."""
+    import ast as _ast
+    out = []
+    for ws in ("\t", "\x0c", " \t ", "\t\t", "  ", " \x0c"):
+        for tail in ("", "!r", ":>5", "=", "!r:>5", ":{w}"):
+            for pre, q in (("f", "'"), ("rf", '"'), ("F", "'" * 3), ("f", '"' * 3)):
+                out.append(("%s%sa{%s%s}b%s" % (pre, q, ws, tail, q), "EmptyExpression"))
+    for ws in ("\n", "\r\n", " \n ", "\n\t\n", "\r"):
+        for tail in ("", "!r", ":>5"):
+            for pre, q in (("f", "'" * 3), ("rf", '"' * 3)):
+                out.append(("%s%s{%s%s}%s" % (pre, q, ws, tail, q), "EmptyExpression"))
+    keep = []
+    for lit, kind in out:
+        try:
+            _ast.parse("x = " + lit + "\n")
+        except SyntaxError:
+            keep.append((lit, kind))
+    return keep
+
+
+FSTRING_BAD += _empty_field_forms()
 STRING_BAD = [("'abc", "unterminated-string"), ('"abc', "unterminated-string"), ("'''abc", "unterminated-string"), ("'abc\\", "unterminated-string"), ("'\\N{nope}'", "invalid-escape"), ("'\\x4'", "invalid-escape"),
               ("'\\xg0'", "invalid-escape"), ("'\\U00110000'", "invalid-escape"), ("'\\u12'", "invalid-escape"), ("'\\N{'", "invalid-escape"), ("'\\N'", "invalid-escape"), ("b'\\xg'", "invalid-escape"),
               ("'a' b'b'", "mix-bytes-text"), ("b'a' 'b'", "mix-bytes-text"), ("b'a' f'{x}'", "mix-bytes-text"), ("b'é'", "non-ascii-bytes"), ("rb'日'", "non-ascii-bytes"), ("b'''\né'''", "non-ascii-bytes")]
